@@ -19,6 +19,7 @@ import (
 	"servitor/jtp"
 	"servitor/pub"
 	"servitor/verifrt"
+	"verif/lib/enva"
 	"verif/lib/ev"
 	"verif/lib/uidrv"
 	"verif/lib/world"
@@ -292,10 +293,11 @@ func runCase(r *ev.Report, sc scenario, f fault) {
 }
 
 func main() {
+	envaDir := enva.Reexec()
 	r := ev.New("C05", "fault_enumeration",
 		"corpus of 9 exchanges (6 single responses incl. nested, trailing-garbage, 4 kB and LF-only; a 3-hop redirect chain; a webfinger lookup; pub.New on an actor with an outbox); "+
 			"faults: cut after every byte k of every response with FIN, with RST and as a stall, trickle (one byte per 0.6 x timeout) from 3 start points, connection refused and connection stall, at every hop; "+
-			"virtual-time connections: a stalled read times out iff a deadline is armed; distinct_nontrivial = fault points inside a response (not before byte 0 or after the last byte)")
+			"virtual-time connections: a stalled read times out iff a deadline is armed; Env-A: one real-time case per stall stage (before/in status line, headers, after headers, body, trickle, truncated body, no TLS handshake) over real TLS with a 1 s timeout; distinct_nontrivial = fault points inside a response (not before byte 0 or after the last byte)")
 	if *ev.FlagReplay != "" {
 		var d struct {
 			Case caseDesc `json:"case"`
@@ -336,12 +338,13 @@ func main() {
 		r.Sample(caseDesc{sc.Name, fault{Hop: len(sc.Hops) - 1, Kind: "stall", At: 17}})
 	}
 	verifrt.SetWorld(nil)
+	envaPart(r, envaDir)
 	r.Extra["timeout_s"] = timeout.Seconds()
 	r.Extra["scenarios"] = len(scenarios())
 	r.Assumptions = append(r.Assumptions,
 		"Env-B: connections are in-memory with a virtual clock (rt/verifrt/net.go): SetDeadline/SetReadDeadline arm a deadline, a stalled or trickling read advances virtual time and times out iff a deadline is armed; "+
 			"a stalled read without a deadline is reported as a hang instead of blocking. TLS handshake stalls are modelled as a connection stall covered by the dialer timeout",
-		"timeliness bound: 5 x timeout of virtual time per connection",
+		"timeliness bound: 5 x timeout of virtual time per connection; the Env-A cases use wall-clock time with 5 x timeout + 3 s (the only place where real time decides; the failure looked for is unbounded blocking)",
 		"a failure while loading an actor's outbox is shown inside the actor item and is not required to fail the actor")
 	r.Finish()
 }
